@@ -1,7 +1,8 @@
 """C08 - workers answer each command exactly once (terminal status), routing table vs handlers."""
 import engine, lib, guards
 from engine import Engine, Spec
-from mir import callee_of, op_place, pl_local
+from mir import callee_of, op_place, pl_local, op_local, proj_fields
+from mir import op_const as mir_const
 from facts import Broken
 
 RT = "sozu_command_lib::proto::command::request::RequestType"
@@ -217,6 +218,7 @@ def run(F, chk):
             ra.broke(n)
     upsert_rule(F, chk)
     requeue_rule(F, chk)
+    give_back_rule(F, chk)
     # ---------------- R-C08-d routing table vs handlers --------------------
     rd = chk.rule("R-C08-d", "T7b", "every variant get_destinations routes to a proxy has an explicit arm there", floor=20)
     gd = F.body("sozu_command_lib::request::<impl sozu_command_lib::proto::command::Request>::get_destinations")
@@ -480,3 +482,60 @@ def requeue_rule(F, chk):
             else:
                 r.ok(key, b.where(wi), "Err edge of write_message re-queues the response (push_front/push_back) on every path")
     r.require(n >= 1, "no pop_front -> write_message site found in sozu_lib")
+
+
+def give_back_rule(F, chk):
+    """R-C08-h: ReturnListenSockets / DeactivateListener hand a listener's socket back (`listener.take()`).  A listener
+    whose socket is gone must not stay `active`: activate() short-circuits on that flag and answers OK without binding.
+    The four proxies' give_back_listener(s) are siblings; each clears `active` on every path on which it took a socket."""
+    r = chk.rule("R-C08-h", "T8", "a listener that gave its socket back is no longer marked active", floor=4)
+    import C17
+    n = 0
+    for b in F.grep("Option::<T>::take", "|listener"):
+        root = b.root if "{closure" in b.path else b.path
+        if not (root.startswith(("sozu_lib::", "<sozu_lib::")) and root.rsplit("::", 1)[-1].startswith("give_back_listener")) or b.derived:
+            continue
+        for bi, t in b.calls():
+            if not (callee_of(t).endswith("Option::<T>::take") and t["args"]):
+                continue
+            sl = guards.slice_of_operand(b, t["args"][0])
+            hit = [(a, f) for a, f in sl["fields"] if f == "listener"]
+            if not hit or hit[0][0] not in F.adts or not any(x["name"] == "active" for x in F.fields(hit[0][0])):
+                continue
+            n += 1
+            r.fn(b.path)
+            key = "%s|take => active cleared" % b.path
+            clears = [x for x, si, s2 in b.stmts() if isinstance(s2.get("lhs"), dict) and proj_fields(s2["lhs"]) and
+                      proj_fields(s2["lhs"])[-1][2] == "active" and s2["rv"]["k"] == "use" and mir_const(s2["rv"]["a"]) == 0]
+            some = []
+            # the value may reach the test through `?` (Try::branch) or a plain match
+            carriers = {t["dest"]: "opt"} if isinstance(t.get("dest"), int) else {}
+            grew = True
+            while grew:
+                grew = False
+                for x, tt in b.calls():
+                    a0 = op_local(tt["args"][0]) if tt["args"] else None
+                    if a0 in carriers and isinstance(tt.get("dest"), int) and tt["dest"] not in carriers and callee_of(tt).endswith(("::ok_or", "::ok_or_else")):
+                        carriers[tt["dest"]] = "res"
+                        grew = True
+                for x, si, s2 in b.stmts():
+                    rv2 = s2.get("rv")
+                    if rv2 and rv2["k"] == "use" and isinstance(s2.get("lhs"), int) and op_local(rv2["a"]) in carriers and s2["lhs"] not in carriers:
+                        carriers[s2["lhs"]] = carriers[op_local(rv2["a"])]
+                        grew = True
+            for x, tt in b.calls():
+                if (tt.get("fn") or "").endswith("Try::branch") and tt["args"] and op_local(tt["args"][0]) in carriers and isinstance(tt.get("dest"), int):
+                    for sb, tg, el in C17.discr_switches(b, tt["dest"]):
+                        some.append(tg.get(0, el))          # Continue: a socket was taken
+            for c, kind in list(carriers.items()):
+                for sb, tg, el in C17.discr_switches(b, c):
+                    some.append(tg.get(1 if kind == "opt" else 0, el))     # Some / Ok
+            if not some:
+                r.violation(key, b.where(bi), "the result of listener.take() is not examined")
+                continue
+            after = b.reach_from(some, removed=clears)
+            if clears and not [x for x in b.returns() if x in after]:
+                r.ok(key, b.where(bi), "every path past a taken socket clears `active`")
+            else:
+                r.violation(key, b.where(bi), "a listener's socket is handed back while the listener stays `active`: a later ActivateListener short-circuits on the stale flag and is answered OK although nothing listens on the address")
+    r.require(n >= 4, "only %d give_back_listener(s) take sites found" % n)
